@@ -46,10 +46,16 @@ PRELUDE = """pub struct Opaque;
 #[derive(TS)] pub enum One5 { Only { a: i32 } }
 #[derive(TS)] #[ts(tag = "k", content = "c")] pub enum One6 { Only(#[ts(inline)] Two) }
 #[derive(TS)] pub struct OnlyTail { pub tail: String }
+#[derive(TS)] #[ts(tag = "kind")] pub struct Tagged { pub a: i32, pub b: Option<String> }
+#[derive(TS)] pub struct MidT { #[ts(flatten)] pub t: Tagged, pub m: i32 }
+#[derive(TS)] #[ts(tag = "kind", rename_all = "camelCase")] pub struct TaggedRen { pub first_field: i32 }
+#[derive(TS)] #[ts(tag = "kind")] pub struct TaggedEmpty {}
 """
 # object-like enums: flattening one denotes  parent & enum  ("the object obtained by merging the flattened
 # type's properties into the parent", alternative by alternative)
-FLAT_ENUMS = ["TagE", "Two", "One1", "One2", "One3", "One4", "One5", "One6", "Box<Two>"]
+FLAT_ENUMS = ["TagE", "Two", "One1", "One2", "One3", "One4", "One5", "One6", "Box<Two>",
+              # and structs that carry a container-level tag (the tag is one of their properties), alone and nested
+              "Tagged", "Box<Tagged>", "MidT", "TaggedRen", "TaggedEmpty", "Gen<Tagged>"]
 
 
 def pres_units():
